@@ -14,7 +14,7 @@ namespace Gin.Scopes
 
 /-- the list pushed by `config_scope(arg)` *before* validation, and whether validation passes -/
 def pushed (cur : Scope) : ScopeArg → Scope × Bool
-  | .name s => let new := cur ++ s.splitOn "/"; (new, new.all isModuleName)
+  | .name s => let new := cur ++ splitChar s '/'; (new, new.all isModuleName)
   | .listArg l => (l, l.all isModuleName)
   | .clear => ([], true)
   | .invalid => ([], false)
@@ -69,7 +69,7 @@ deriving Inhabited
 
 /-- validity of a `config_scope` argument given that the enclosing scope is valid -/
 def staticValid : ScopeArg → Bool
-  | .name s => (s.splitOn "/").all isModuleName
+  | .name s => (splitChar s '/').all isModuleName
   | .listArg l => l.all isModuleName
   | .clear => true
   | .invalid => false
